@@ -11,7 +11,7 @@ def load_known():
     except FileNotFoundError:
         return []
 
-def known_match(pid, case_fails, line, obs, known):
+def known_match(pid, case_fails, line, obs, known, tag=None):
     """a failing case is covered by a known finding iff the property matches, every failing clause of the
     case that belongs to this property is listed by the entry, and the entry's regexes match the case"""
     for k in known:
@@ -22,6 +22,8 @@ def known_match(pid, case_fails, line, obs, known):
         if "line_regex" in k and not re.search(k["line_regex"], line):
             continue
         if "obs_regex" in k and not re.search(k["obs_regex"], obs):
+            continue
+        if "tag_regex" in k and not re.search(k["tag_regex"], tag or ""):
             continue
         return k
     return None
@@ -113,7 +115,7 @@ def judge_cases(res, cases, clause_prefixes, nontrivial_fn, known, sample_every=
         res.count("obs:" + c.obs.split(" ", 1)[0])
         explained = False
         if mine:
-            k = known_match(res.pid, mine, c.line, c.obs, known)
+            k = known_match(res.pid, mine, c.line, c.obs, known, c.tag)
             if k:
                 res.known_hits.setdefault(k["id"], (k, c))
                 explained = True      # the disagreement on this case is the known finding itself
